@@ -44,10 +44,14 @@ PROBES_REQUIRED = ["limit-with-header", "cid:valid", "cid:rejected", "cid:missin
 BAD_ARGS = [[], ["--bogus"], ["--until", "x", "cid.csv"], ["--until", "-2", "cid.csv"], ["--until"], ["--log", "loud", "cid.csv"]]
 
 
-def _spec(fmt, header=0):
+def _spec(fmt, header=0, end_check=False):
+    checks = [["uniq", "IsUnique", "id"]]
+    if end_check:
+        # an end-of-data check that fails on empty data (and holds for every accepted file of this workload)
+        checks.append(["some names", "DistinctCount", "name >= 1"])
     return {"format": fmt, "header": header, "sep": ":", "line_delimiter": "lf",
             "fields": [{"name": "id", "type": "Integer"}, {"name": "name", "type": "Text"}],
-            "checks": [["uniq", "IsUnique", "id"]]}
+            "checks": checks}
 
 
 def _table(kind, number, rng):
@@ -80,7 +84,7 @@ def generate(seed, tier):
     order2 = list(range(len(files)))
     rng.shuffle(order2)
     return {"io": simfs.IoConfig.draw(swarm), "format": fmt, "cid_kind": swarm.choice(CID_KINDS), "files": files,
-            "until": until, "k": rng.randint(1, 4), "order2": order2, "header": swarm.choice([0, 0, 1]),
+            "until": until, "k": rng.randint(1, 4), "order2": order2, "header": swarm.choice([0, 0, 1]), "end_check": swarm.random() < 0.4,
             "cid_defect": swarm.choice(["unknown-type", "duplicate-field", "check-before-field"])}
 
 
@@ -98,15 +102,17 @@ def _call_main(argv):
 
 
 def _cid_rows(scenario):
-    rows = tabular.cid_rows(_spec(scenario["format"], scenario.get("header", 0)))
+    rows = tabular.cid_rows(_spec(scenario["format"], scenario.get("header", 0), scenario.get("end_check", False)))
     if scenario["cid_kind"] == "rejected":
         defect = scenario.get("cid_defect", "unknown-type")
+        field_rows = [index for index, row in enumerate(rows) if row[0] == "f"]
+        check_rows = [index for index, row in enumerate(rows) if row[0] == "c"]
         if defect == "unknown-type":
-            rows[-2][5] = "Nope"
+            rows[field_rows[0]][5] = "Nope"
         elif defect == "duplicate-field":
-            rows.insert(-1, list(rows[-2]))
+            rows.insert(field_rows[-1] + 1, list(rows[field_rows[0]]))
         else:
-            rows.insert(1, rows.pop())
+            rows.insert(field_rows[0], rows.pop(check_rows[0]))
     return rows
 
 
@@ -131,7 +137,7 @@ def execute(scenario):
         return result
 
     fmt = scenario["format"]
-    spec = _spec(fmt, scenario.get("header", 0))
+    spec = _spec(fmt, scenario.get("header", 0), scenario.get("end_check", False))
     cid_kind = scenario["cid_kind"]
     until = scenario["until"]
     limit = None if until in ("absent", "-1") else (0 if until == "0" else scenario["k"])
@@ -257,6 +263,8 @@ def candidates(scenario):
         yield lib.with_value(scenario, ["until"], "absent")
     if scenario.get("header"):
         yield lib.with_value(scenario, ["header"], 0)
+    if scenario.get("end_check"):
+        yield lib.with_value(scenario, ["end_check"], False)
     if scenario["format"] != "delimited":
         yield lib.with_value(scenario, ["format"], "delimited")
     if scenario["cid_kind"] != "valid":
